@@ -43,18 +43,22 @@ def take(r, k):
     return out
 
 
-def job_iter(ctx, mode, fmt, reps, unit, lo, hi, rep="ord", ranges=None, pins=None, K=C.KWIDE):
-    """exact single-unit symbolic interval; reps in {1..4} or None (unbounded)"""
+def job_iter(ctx, mode, fmt, reps, unit, lo, hi, rep="ord", ranges=None, pins=None, K=C.KWIDE, a24=False):
+    """exact single-unit symbolic interval; reps in {1..4} or None (unbounded); a24: the anchor is written in
+    the 24:00 end-of-day form"""
     data = ctx.data
     C.set_mode(data, mode)
     install_range_summary(data, mode)
     k = reps if reps is not None else 4
+    if a24:
+        ranges = dict(ranges or {}, h=(24, 24), mi=(0, 0), se=(0, 0))
 
     def make(e):
-        return {"a": anchor_input(e, data, "", rep), "n": e.var("n", lo, hi)}
+        a = C.point_input(e, data, "", rep, tzh=(-3, 3), hmax=24) if a24 else anchor_input(e, data, "", rep)
+        return {"a": a, "n": e.var("n", lo, hi)}
 
     def pre(i):
-        return C.m_valid_point(mode, i["a"], rep, False)
+        return C.m_valid_point(mode, i["a"], rep, a24)
 
     def body(i):
         a, n = i["a"], i["n"]
@@ -90,17 +94,18 @@ def job_iter(ctx, mode, fmt, reps, unit, lo, hi, rep="ord", ranges=None, pins=No
             else:
                 exp = ia + j * step
             obs.append(("point %d is the anchor %+d intervals" % (j, j), L(C.m_instant(mode, p, rep)) == exp))
-            obs.append(("point %d valid, anchor's zone" % j, z3.And(C.m_valid_point(mode, p, rep, False), C.z_same_zone(a, p))))
+            # (the anchor itself may be yielded as it was written, 24:00 included)
+            obs.append(("point %d valid, anchor's zone" % j, z3.And(C.m_valid_point(mode, p, rep, a24), C.z_same_zone(a, p))))
         return obs
 
     def case_of(v, i):
         return {"check": "iter", "mode": mode, "fmt": fmt, "reps": reps, "a": C.point_case(v, "", rep),
                 "dur": {unit: v["n"]}}
 
-    return sym_run("iter[%s,fmt%d,R%s,%s %d..%d,%s,%s]" % (mode, fmt, reps, unit, lo, hi, rep, ranges), make, pre, body, post,
+    return sym_run("iter[%s,fmt%d,R%s,%s %d..%d,%s,%s%s]" % (mode, fmt, reps, unit, lo, hi, rep, ranges, ",a24" if a24 else ""), make, pre, body, post,
                    case_of, ranges=ranges, pins=pins,
                    scenarios=lambda i: {"zero interval": conc(i["n"]) == 0, "fmt%d" % fmt: True,
-                                        "unbounded": reps is None, "one repetition": reps == 1},
+                                        "unbounded": reps is None, "one repetition": reps == 1, "anchor written as 24:00": a24},
                    bounds={"years": "K in %s" % (K,), "interval": {unit: [lo, hi]}, "repetitions": reps, "offsets": "+-3:59"},
                    sample_every=100)
 
@@ -280,6 +285,11 @@ def jobs(tier):
                         hi = 1000       # 3 x 4000 s back from 1 January: z3 answers unknown on some branch flips (measured)
                     for w in (W if (greg and unit in ("hours", "days")) or th else W[2:]):
                         J.append(("job_iter", dict(mode=mode, fmt=fmt, reps=reps, unit=unit, lo=lo, hi=hi, ranges=w)))
+        if greg or th:
+            for fmt in (3, 4):
+                for reps in (2, 3, None):
+                    for unit, lo, hi in (("hours", 0, 50), ("days", 0, 40)):
+                        J.append(("job_iter", dict(mode=mode, fmt=fmt, reps=reps, unit=unit, lo=lo, hi=hi, ranges=W[2], a24=True)))
         for reps in (2, 3):
             for w in W[1:]:
                 J.append(("job_notations", dict(mode=mode, reps=reps, unit="hours", lo=1, hi=50, ranges=w)))
@@ -312,5 +322,5 @@ INFO = {
                 "anchors in calendar or week representation for exact intervals"],
     "assumptions": ["nominal single steps (p + interval) are the real additions verified by C05; this check compares the iterator against them"],
 }
-REQUIRED_SCENARIOS = {"all": ["zero interval", "fmt1", "fmt3", "fmt4", "unbounded", "one repetition", "nominal interval",
+REQUIRED_SCENARIOS = {"all": ["anchor written as 24:00", "zero interval", "fmt1", "fmt3", "fmt4", "unbounded", "one repetition", "nominal interval",
                               "three notations"]}
